@@ -1040,7 +1040,7 @@ func (m *membershipAllower) membershipAllowed(event PDU) error { // nolint: gocy
 		if err := json.Unmarshal(event.Content(), &mapping); err != nil {
 			return err
 		}
-		if mapping.MXIDMapping != nil {
+		if mapping.MXIDMapping != nil && m.roomVersionImpl.Version() == RoomVersionPseudoIDs {
 			sender, err = spec.NewUserID(mapping.MXIDMapping.UserID, true)
 			if err != nil {
 				return err
